@@ -97,7 +97,8 @@ AllNeeds(f, ns) == \A i \in 1..Len(ns) : Need(f, ns[i])
 RECURSIVE CanEnterFrame(_, _, _), CanStart(_, _)
 CanStart(f, depth) ==
     LET ks == Outline(prog.framers[f].first) IN
-    \A i \in 1..Len(ks) : CanEnterFrame(ks[i], <<>>, depth)
+    /\ \A i \in 1..Len(ks) : CanEnterFrame(ks[i], <<>>, depth)
+    /\ \A i, j \in 1..Len(ks) : i < j => Range(Fr(ks[i]).auxes) \cap Range(Fr(ks[j]).auxes) = {}
 CanEnterFrame(k, exits, depth) ==
     /\ AllNeeds(Fr(k).framer, Fr(k).benter)
     /\ \A i \in 1..Len(AuxesOf(k)) :
@@ -105,7 +106,13 @@ CanEnterFrame(k, exits, depth) ==
           /\ ~(fs[a].main # "" /\ fs[a].main # k /\ fs[a].main \notin Range(exits))
           /\ (depth > 0 => CanStart(a, depth - 1))
 MaxAuxDepth == 3
-CanEnter(enters, exits) == enters # <<>> /\ \A i \in 1..Len(enters) : CanEnterFrame(enters[i], exits, MaxAuxDepth)
+\* an original auxiliary is never active under two frames at once: two frames entered together may
+\* not both carry it
+NoDoubleClaim(enters) == \A i, j \in 1..Len(enters) :
+    i < j => Range(AuxesOf(enters[i])) \cap Range(AuxesOf(enters[j])) = {}
+CanEnter(enters, exits) == /\ enters # <<>>
+                           /\ \A i \in 1..Len(enters) : CanEnterFrame(enters[i], exits, MaxAuxDepth)
+                           /\ NoDoubleClaim(enters)
 CheckStart(f) == CanStart(f, MaxAuxDepth)
 
 (* ------------------------------------------------------------------------------------------ *)
@@ -325,7 +332,9 @@ SetMain ==
 \* exit every active frame bottom-up, then deactivate (abort = stop: the done flag is left alone)
 ExitAll ==
     /\ todo # <<>> /\ H.op = "exitAll"
-    /\ LET f == H.f  ks == Reverse(fs[f].actives) IN
+    /\ LET f == H.f
+           \* every entered frame: the full outline, including frames suspended by a conditional auxiliary
+           ks == IF fs[f].active = "" THEN <<>> ELSE Reverse(Outline(fs[f].active)) IN
        Push([i \in 1..Len(ks) |-> [op |-> "exitFrame", f |-> f, k |-> ks[i]]] \o
             << [op |-> "deactivate", f |-> f, abort |-> H.abort] >>)
     /\ lab' = Silent
@@ -337,16 +346,35 @@ Deactivate ==
     /\ Pop /\ lab' = Silent
     /\ UNCHANGED <<prog, phase, now, tickn, pending, ready, more, cur, store, entered, crashed, sweeps>>
 
-\* a frame's auxiliaries are exited first (and released), then its exit actions run
-ExitFrame ==
+\* a frame's auxiliaries are exited first (and released), then its exit actions run.  A conditional
+\* auxiliary of the frame that is still running is exited with its main frame; whether that happens
+\* before or after the frame's own exit actions is not documented (condFirst \in BOOLEAN).
+CondAuxesOf(k) == LET acts == Fr(k).precur
+                      idx == {i \in 1..Len(acts) : acts[i].k = "auxif"} IN
+                  {acts[i].aux : i \in idx}
+RECURSIVE SetToSeqOps(_, _)
+SetToSeqOps(S, k) == IF S = {} THEN <<>>
+                     ELSE LET x == CHOOSE y \in S : TRUE IN
+                          << [op |-> "forceExit", x |-> x, k |-> k] >> \o SetToSeqOps(S \ {x}, k)
+ExitFrame(condFirst) ==
     /\ todo # <<>> /\ H.op = "exitFrame"
-    /\ LET f == H.f  k == H.k  as == AuxesOf(k) IN
-       /\ Push(Flatten([i \in 1..Len(as) |-> << [op |-> "exitAll", f |-> as[i], abort |-> FALSE],
-                                                [op |-> "setMain", a |-> as[i], k |-> ""] >>])
-               \o ActOps(f, k, "exit"))
+    /\ LET f == H.f  k == H.k  as == AuxesOf(k)
+           plain == Flatten([i \in 1..Len(as) |-> << [op |-> "exitAll", f |-> as[i], abort |-> FALSE],
+                                                     [op |-> "setMain", a |-> as[i], k |-> ""] >>])
+           cond == SetToSeqOps({x \in CondAuxesOf(k) : ~fs[x].done /\ fs[x].main = k}, k) IN
+       /\ Push(IF condFirst THEN plain \o cond \o ActOps(f, k, "exit")
+                            ELSE plain \o ActOps(f, k, "exit") \o cond)
        /\ entered' = [entered EXCEPT ![k] = @ - 1]
     /\ lab' = Silent
     /\ UNCHANGED <<prog, phase, now, tickn, pending, ready, more, cur, fs, store, crashed, sweeps>>
+
+ForceExit ==
+    /\ todo # <<>> /\ H.op = "forceExit"
+    /\ IF ~fs[H.x].done /\ fs[H.x].main = H.k
+       THEN Push(<< [op |-> "exitAll", f |-> H.x, abort |-> FALSE], [op |-> "setMain", a |-> H.x, k |-> ""] >>)
+       ELSE Pop
+    /\ lab' = Silent
+    /\ UNCHANGED <<prog, phase, now, tickn, pending, ready, more, cur, fs, store, entered, crashed, sweeps>>
 
 Activate ==
     /\ todo # <<>> /\ H.op = "activate"
@@ -393,7 +421,7 @@ PrecurWalk ==
                      cont == [op |-> "precur", f |-> f, ks |-> ks, j |-> j + 1] IN
                  CASE a.k = "go" ->
                         LET far == a.far
-                            nears == fs[f].actives
+                            nears == Outline(fs[f].active)   \* the full outline: suspended frames included
                             exits == Exits(nears, far)
                             enters == Enters(nears, far)
                             reex == Reexens(nears, far) IN
@@ -417,10 +445,13 @@ PrecurWalk ==
                                              [op |-> "suspend", f |-> f, k |-> k, x |-> x, first |-> TRUE, cont |-> cont] >>)
                                   /\ UNCHANGED fs
                              ELSE Push(<<cont>>) /\ UNCHANGED fs
-                        ELSE \* running: it runs every tick regardless of its conditions
+                        ELSE IF fs[x].main = k
+                        THEN \* running under this frame: it runs every tick regardless of its conditions
                              /\ Push(<< [op |-> "segue", f |-> x], [op |-> "recur", f |-> x],
                                         [op |-> "suspend", f |-> f, k |-> k, x |-> x, first |-> FALSE, cont |-> cont] >>)
                              /\ UNCHANGED fs
+                        ELSE \* running under another frame: never active under two frames at once
+                             Push(<<cont>>) /\ UNCHANGED fs
                    [] OTHER ->
                         \* an ordinary action placed in the precur context
                         Push(<< [op |-> "act", f |-> f, k |-> k, ctx |-> "precur", i |-> j], cont >>) /\ UNCHANGED fs
@@ -508,8 +539,55 @@ DoAct ==
               /\ UNCHANGED store
     /\ UNCHANGED <<prog, now, tickn, more, cur, entered, sweeps>>
 
+
+(* ------------------------------------------------------------------------------------------ *)
+(* Properties (evaluated on the specification's own behaviours and, through FloTrace, on every *)
+(* recorded execution of the real code)                                                        *)
+Quiescent == todo = <<>>
+Taskables == Range(prog.order)
+
+\* C05: a started/running framer's active frames are the outline of its active frame, cut at the
+\* main frame of a running conditional auxiliary; a stopped/aborted framer has none
+RunningCondMain(f) == {k \in Range(Outline(fs[f].active)) :
+                         \E x \in CondAuxesOf(k) : ~fs[x].done /\ fs[x].main = k}
+ActivesAreOutline ==
+    Quiescent => \A f \in Taskables :
+        IF Running(f)
+        THEN \/ fs[f].actives = Outline(fs[f].active)
+             \/ \E k \in RunningCondMain(f) : fs[f].actives = HeadOf(k)
+        ELSE fs[f].actives = <<>> /\ fs[f].active = ""
+
+\* C06: enter and exit alternate ...
+Alternate == \A k \in FrameKeys : entered[k] \in {0, 1}
+\* ... and at every quiescent point the frames entered but not exited are exactly the FULL outlines
+\* of the active framers and of their active auxiliaries, suspended frames included
+RECURSIVE Expected(_, _)
+Expected(f, depth) ==
+    IF fs[f].active = "" \/ depth = 0 THEN {}
+    ELSE LET ks == Range(Outline(fs[f].active)) IN
+         ks \cup UNION {UNION {Expected(AuxesOf(k)[i], depth - 1) : i \in 1..Len(AuxesOf(k))} : k \in ks}
+            \cup UNION {UNION {Expected(x, depth - 1) : x \in {y \in CondAuxesOf(k) : ~fs[y].done /\ fs[y].main = k}} : k \in ks}
+Bracket == Quiescent =>
+    {k \in FrameKeys : entered[k] = 1} = UNION {Expected(f, MaxAuxDepth + 1) : f \in Taskables \cup {g \in Framers : prog.framers[g].sched = "slave"}}
+
+\* C09: an original auxiliary is owned by at most one frame, and exactly while it is active
+AuxOwnership == Quiescent => \A a \in Framers :
+    prog.framers[a].sched = "aux" => ((fs[a].main # "") <=> (fs[a].active # ""))
+
+\* C03: when the run has ended every framer has exited all its frames and the sweep sent at most one abort
+EndClean == phase = "end" =>
+    /\ \A f \in Taskables : sweeps[f] <= 1
+    /\ \A f \in Taskables : fs[f].status = "aborted"
+    /\ (crashed = "" => \A k \in FrameKeys : entered[k] = 0)
+
+\* C02: an aborted tasker is never scheduled again; each tasker is scheduled at most once
+ScheduledOnce == \A i, j \in 1..Len(pending \o ready) :
+    i # j => (pending \o ready)[i].t # (pending \o ready)[j].t
+AbortedNotScheduled == (Quiescent /\ phase = "between") =>
+    \A i \in 1..Len(ready) : fs[ready[i].t].status # "aborted"
+
 MachineStep == RunOp \/ SetStatus \/ Yield \/ EnterAll \/ EnterFrames \/ EnterFrame \/ SetMain \/ ExitAll
-               \/ Deactivate \/ ExitFrame \/ Activate \/ Segue \/ Recur \/ RecurFrame \/ PrecurWalk
+               \/ Deactivate \/ (\E b \in BOOLEAN : ExitFrame(b)) \/ ForceExit \/ Activate \/ Segue \/ Recur \/ RecurFrame \/ PrecurWalk
                \/ (\E b \in BOOLEAN : Suspend(b)) \/ Reactivate \/ DoAct \/ Requeue
 
 EnvVals == {0, 1}
